@@ -259,6 +259,25 @@ def run_case(case, tier):
                 viol.append({"cls": "pose-changes-pka-keep-protons", "msg": "with supplied hydrogens (-k): %s" % obs.brief(diffs, 4)})
     else:
         classes.append("hetero-structure-tier1-only")
+    if not viol and not popts and rng.random() < 0.5:
+        # --protonate-all: its results equal the default ones (C07's subject); if they do so in one frame
+        # and not in the other, the option's results depend on the frame
+        p0 = obs.run_single(t0, ["--protonate-all"], write_pka=False)
+        pT = obs.run_single(tT, ["--protonate-all"], write_pka=False)
+        counts["pipeline_runs"] += 2
+        counts["protonate_all_poses"] = 1
+        if not p0.exc and not pT.exc:
+            d0 = motion.max_pka_difference(p0, run0, lambda k: k)
+            dT = motion.max_pka_difference(pT, runT, lambda k: k)
+            d_pa = motion.max_pka_difference(p0, pT, back_key)
+            d_def = motion.max_pka_difference(run0, runT, back_key)
+            if (d0 <= 1e-7) != (dT <= 1e-7):
+                viol.append({"cls": "pose-changes-pka-protonate-all", "msg": "--protonate-all agrees with the default run in one frame (difference %.3g) "
+                             "but not in the other (%.3g)" % (min(d0, dT), max(d0, dT))})
+            elif d_pa > 0.02 and d_def <= 0.02:
+                viol.append({"cls": "pose-changes-pka-protonate-all", "msg": "with --protonate-all pKa/determinants differ by %.3g between the frames, "
+                             "with default options by %.3g" % (d_pa, d_def)})
+            classes.append("protonate-all-in-both-frames")
     if popts:
         systems = {frozenset([g["label"]] + list(g["cov"])) for g in run0.rec["confs"][run0.rec["names"][0]]["groups"] if g["cov"]}
         if len(systems) >= 2:
@@ -275,7 +294,7 @@ def run_case(case, tier):
 
 def verdict(tier, counts, classes, nontrivial, results):
     reasons = []
-    for t in ("tier1", "tier2", "tier3", "sweep_poses"):
+    for t in ("tier1", "tier2", "tier3", "sweep_poses", "protonate_all_poses"):
         if counts.get(t, 0) == 0:
             reasons.append("%s never exercised" % t)
     if counts.get("hydrogens_compared", 0) == 0:
